@@ -28,7 +28,7 @@ func init() { register("C04", genC04) }
 
 var c04Debug = os.Getenv("VERIF_DEBUG") != ""
 
-func b2s(b bool) string {
+func c04B2s(b bool) string {
 	if b {
 		return "1"
 	}
@@ -114,14 +114,14 @@ func (k c04KeyCfg) evkParams() rlwe.EvaluationKeyParameters {
 
 // emitEvk emits the tie line(s) for one generated key. kind: gen|relin|gal. For compressed keys the key is
 // expanded afterwards (and a second line ties the expanded key).
-func c04EmitEvk(c *Ctx, ps *c04PS, tw *kgenTwin, kind string, cfg c04KeyCfg, galEl uint64, s, s2 []int64, evk *rlwe.EvaluationKey) {
-	shape := evkShape(evk)
+func c04EmitEvk(c *Ctx, ps *c04PS, tw *c04KgenTwin, kind string, cfg c04KeyCfg, galEl uint64, s, s2 []int64, evk *rlwe.EvaluationKey) {
+	shape := c04EvkShape(evk)
 	A, E, seed := tw.replayEvk(cfg.lq, cfg.lp, shape, cfg.compressed)
 	s2s := "-"
 	if s2 != nil {
-		s2s = I64Vec(s2)
+		s2s = c04I64Vec(s2)
 	}
-	base := fmt.Sprintf("%s %s %d %d %d %d %s %s %s %s", kind, ps.hdr(), cfg.lq, cfg.lp, cfg.w, galEl, I64Vec(s), s2s, polys(A), ivecs(E))
+	base := fmt.Sprintf("%s %s %d %d %d %d %s %s %s %s", kind, ps.hdr(), cfg.lq, cfg.lp, cfg.w, galEl, c04I64Vec(s), s2s, c04Polys(A), c04IVecs(E))
 	comp := 0
 	if cfg.compressed {
 		comp = 1
@@ -129,7 +129,7 @@ func c04EmitEvk(c *Ctx, ps *c04PS, tw *kgenTwin, kind string, cfg c04KeyCfg, gal
 			panic("c04: twin seed differs from the key's seed")
 		}
 	}
-	c.Emit(fmt.Sprintf("evk %d %s", comp, base), IVec(shape)+"|"+polys(ps.evkPolys(evk)))
+	c.Emit(fmt.Sprintf("evk %d %s", comp, base), IVec(shape)+"|"+c04Polys(ps.evkPolys(evk)))
 	c.Count(fmt.Sprintf("evk:%s:comp%d", kind, comp))
 	if cfg.compressed {
 		A2 := tw.replayExpand(seed, cfg.lq, cfg.lp, shape)
@@ -138,10 +138,10 @@ func c04EmitEvk(c *Ctx, ps *c04PS, tw *kgenTwin, kind string, cfg c04KeyCfg, gal
 			buf = rlwe.NewGadgetCiphertext(ps.params, 0, cfg.lq, cfg.lp, cfg.w)
 		}
 		if err := evk.Expand(ps.params, buf); err != nil {
-			c.Emit(fmt.Sprintf("evk 2 %s %s", base, polys(A2)), "err")
+			c.Emit(fmt.Sprintf("evk 2 %s %s", base, c04Polys(A2)), "err")
 			return
 		}
-		c.Emit(fmt.Sprintf("evk 2 %s %s", base, polys(A2)), IVec(evkShape(evk))+"|"+polys(ps.evkPolys(evk)))
+		c.Emit(fmt.Sprintf("evk 2 %s %s", base, c04Polys(A2)), IVec(c04EvkShape(evk))+"|"+c04Polys(ps.evkPolys(evk)))
 		c.Count(fmt.Sprintf("evk:%s:expanded", kind))
 		// Expand twice must be refused (the key is no longer compressed)
 		detail := ""
@@ -157,8 +157,8 @@ func c04EmitEvk(c *Ctx, ps *c04PS, tw *kgenTwin, kind string, cfg c04KeyCfg, gal
 // ---------------------------------------------------------------------------------------------
 
 func (ps *c04PS) ksLine(op string, cfg c04KeyCfg, isNTT bool, galEl uint64, nbPi int, evk *rlwe.EvaluationKey, ctp [][][]uint64) string {
-	return fmt.Sprintf("%s %s %d %d %d %s %d %d %s %s %s", op, ps.hdr(), cfg.lq, cfg.lp, cfg.w, b2s(isNTT), galEl, nbPi,
-		IVec(evkShape(evk)), polys(ps.evkPolys(evk)), polys(ctp))
+	return fmt.Sprintf("%s %s %d %d %d %s %d %d %s %s %s", op, ps.hdr(), cfg.lq, cfg.lp, cfg.w, c04B2s(isNTT), galEl, nbPi,
+		IVec(c04EvkShape(evk)), c04Polys(ps.evkPolys(evk)), c04Polys(ctp))
 }
 
 // c04EmitKs emits the tie line, unless the real code refused or panicked on this (valid) input: that is a
@@ -215,7 +215,7 @@ func c04Classify(ps *c04PS, cfg c04KeyCfg, lvl int, shape []int) string {
 
 func c04ProbeNoise(c *Ctx, ps *c04PS, name string, args string, out *rlwe.Ciphertext, skT *rlwe.SecretKey, want []int64, bound *big.Int, class string) {
 	lvl := out.Level()
-	half := prodBig(ps.Q[:lvl+1])
+	half := c04ProdBig(ps.Q[:lvl+1])
 	half.Rsh(half, 1)
 	// input noise <= 3, message <= 2^17: the test is meaningful iff bound + 3 + 2^17 < Q/2
 	tot := new(big.Int).Add(bound, big.NewInt(3))
@@ -246,8 +246,8 @@ func c04Scenario(c *Ctx, ps *c04PS, cfg c04KeyCfg, heavy bool) {
 	sI := ps.secretInts(sk)
 	s2I := ps.secretInts(sk2)
 
-	kgen, tw := newKgenWithTwin(ps)
-	args := fmt.Sprintf("%s %d %d %d %s", ps.hdr(), cfg.lq, cfg.lp, cfg.w, b2s(cfg.compressed))
+	kgen, tw := c04NewKgenWithTwin(ps)
+	args := fmt.Sprintf("%s %d %d %d %s", ps.hdr(), cfg.lq, cfg.lp, cfg.w, c04B2s(cfg.compressed))
 
 	// ---- generic key sk -> sk2
 	evk := kgen.GenEvaluationKeyNew(sk, sk2, cfg.evkParams())
@@ -297,10 +297,10 @@ func c04Scenario(c *Ctx, ps *c04PS, cfg c04KeyCfg, heavy bool) {
 		}
 		m := c04Msg(c, ps, lvl)
 		e := c04SmallVec(c, N, 3)
-		c.Count(fmt.Sprintf("ct:lvl%d-of-%d:ntt%s:mode%d", lvl, cfg.lq, b2s(isNTT), mode))
-		bound := ps.ksNoiseBound(lvl, cfg.lp, cfg.w, evkShape(evk))
-		pargs := fmt.Sprintf("%s lvl=%d ntt=%s mode=%d", args, lvl, b2s(isNTT), mode)
-		class := c04Classify(ps, cfg, lvl, evkShape(evk))
+		c.Count(fmt.Sprintf("ct:lvl%d-of-%d:ntt%s:mode%d", lvl, cfg.lq, c04B2s(isNTT), mode))
+		bound := ps.ksNoiseBound(lvl, cfg.lp, cfg.w, c04EvkShape(evk))
+		pargs := fmt.Sprintf("%s lvl=%d ntt=%s mode=%d", args, lvl, c04B2s(isNTT), mode)
+		class := c04Classify(ps, cfg, lvl, c04EvkShape(evk))
 
 		// ---- ApplyEvaluationKey sk -> sk2
 		{
@@ -311,7 +311,7 @@ func c04Scenario(c *Ctx, ps *c04PS, cfg c04KeyCfg, heavy bool) {
 				if err := eval.ApplyEvaluationKey(ct, evk, out); err != nil {
 					return "err"
 				}
-				return polys(ps.ctPolys(out))
+				return c04Polys(ps.ctPolys(out))
 			})
 			c04EmitKs(c, ps, cfg, "apply", ps.ksLine("apply", cfg, isNTT, 0, 0, evk, in), res)
 			c.Count("ks:apply")
@@ -333,7 +333,7 @@ func c04Scenario(c *Ctx, ps *c04PS, cfg c04KeyCfg, heavy bool) {
 				if err := eval.Relinearize(ct, out); err != nil {
 					return "err"
 				}
-				return polys(ps.ctPolys(out))
+				return c04Polys(ps.ctPolys(out))
 			})
 			c04EmitKs(c, ps, cfg, "relin", ps.ksLine("relin", cfg, isNTT, 0, 0, &rlk.EvaluationKey, in), res)
 			c.Count("ks:relin")
@@ -346,13 +346,13 @@ func c04Scenario(c *Ctx, ps *c04PS, cfg c04KeyCfg, heavy bool) {
 		for gi, g := range galEls {
 			ct := ps.mkCt(sk, m, e, [][][]uint64{ps.ctRows(c, lvl, mode)}, isNTT)
 			in := ps.ctPolys(ct)
-			want := applyAutInts(m, g)
+			want := c04ApplyAutInts(m, g)
 			out := rlwe.NewCiphertext(ps.params, 1, lvl)
 			res := Try(func() string {
 				if err := eval.Automorphism(ct, g, out); err != nil {
 					return "err"
 				}
-				return polys(ps.ctPolys(out))
+				return c04Polys(ps.ctPolys(out))
 			})
 			c04EmitKs(c, ps, cfg, "aut", ps.ksLine("aut", cfg, isNTT, g, 0, &gks[gi].EvaluationKey, in), res)
 			c.Count("ks:aut")
@@ -369,7 +369,7 @@ func c04Scenario(c *Ctx, ps *c04PS, cfg c04KeyCfg, heavy bool) {
 					if err := eval.AutomorphismHoisted(lvl, ct, eval.BuffDecompQP, g, outH); err != nil {
 						return "err"
 					}
-					return polys(ps.ctPolys(outH))
+					return c04Polys(ps.ctPolys(outH))
 				})
 				c04EmitKs(c, ps, cfg, "auth", ps.ksLine("auth", cfg, isNTT, g, nbPi, &gks[gi].EvaluationKey, in), resH)
 				c.Count("ks:auth")
@@ -388,7 +388,7 @@ func c04Scenario(c *Ctx, ps *c04PS, cfg c04KeyCfg, heavy bool) {
 					if err := eval.AutomorphismHoistedLazy(lvl, ct, eval.BuffDecompQP, g, ctQP); err != nil {
 						return "err"
 					}
-					return polys([][][]uint64{
+					return c04Polys([][][]uint64{
 						ps.canonQP(ctQP.Value[0], lvl, cfg.lp, isNTT, false),
 						ps.canonQP(ctQP.Value[1], lvl, cfg.lp, isNTT, false)})
 				})
@@ -406,7 +406,7 @@ func c04GadgetProductTies(c *Ctx, ps *c04PS, eval *rlwe.Evaluator, cfg c04KeyCfg
 	out.IsNTT = isNTT
 	res := Try(func() string {
 		eval.GadgetProduct(lvl, ct.Value[1], &evk.GadgetCiphertext, out)
-		return polys(ps.ctPolys(out))
+		return c04Polys(ps.ctPolys(out))
 	})
 	c04EmitKs(c, ps, cfg, "gp", ps.ksLine("gp", cfg, isNTT, 0, 0, evk, in), res)
 	c.Count("ks:gp")
@@ -419,7 +419,7 @@ func c04GadgetProductTies(c *Ctx, ps *c04PS, eval *rlwe.Evaluator, cfg c04KeyCfg
 			if err := eval.GadgetProductLazy(lvl, ct.Value[1], &evk.GadgetCiphertext, ctQP); err != nil {
 				return "err"
 			}
-			return polys([][][]uint64{
+			return c04Polys([][][]uint64{
 				ps.canonQP(ctQP.Value[0], lvl, cfg.lp, isNTT, false),
 				ps.canonQP(ctQP.Value[1], lvl, cfg.lp, isNTT, false)})
 		})
@@ -475,6 +475,8 @@ func genC04(c *Ctx) {
 	c04DimsSweep(c)
 	c04Witness(c)
 	c04Malformed(c)
+	c04DegreeSwitch(c)
+	c04Packing(c)
 
 	// structured sweep: every (#Q, #P) shape at least once, LogN 4..6
 	type shape struct{ nQ, nP int }
@@ -502,7 +504,7 @@ func genC04(c *Ctx) {
 				cfg.w += 8 // keep the lines of the largest ring manageable
 			}
 			c.Count(fmt.Sprintf("params:logN%d:Q%d:P%d", logN, sh.nQ, sh.nP))
-			c.Count(fmt.Sprintf("cfg:lq%d/%d:lp%d/%d:w%d:comp%s", cfg.lq, sh.nQ-1, cfg.lp, sh.nP-1, cfg.w, b2s(cfg.compressed)))
+			c.Count(fmt.Sprintf("cfg:lq%d/%d:lp%d/%d:w%d:comp%s", cfg.lq, sh.nQ-1, cfg.lp, sh.nP-1, cfg.w, c04B2s(cfg.compressed)))
 			c04Scenario(c, ps, cfg, c.Thorough() && r%2 == 1)
 		}
 	}
@@ -625,7 +627,7 @@ func c04Malformed(c *Ctx) {
 			detail := ""
 			if err := eval.Automorphism(ct1, 1, o); err != nil {
 				detail = "galEl=1 refused"
-			} else if polys(ps.ctPolys(o)) != polys(ps.ctPolys(ct1)) {
+			} else if c04Polys(ps.ctPolys(o)) != c04Polys(ps.ctPolys(ct1)) {
 				detail = "galEl=1 is not the identity"
 			}
 			c.Probe("aut_identity", args, "C04-aut-identity", detail)
